@@ -22,6 +22,8 @@
       around this grid point, the population is within the tolerance of the target (the fraction of points, or the own weight plus the tolerance when that is larger), the other grid
       points are untouched.  _tune_localization_factor_based_on_fraction_of_spread: the width of this grid point
       becomes its nearest-grid distance and the population is re-measured around this grid point (repaired defect 14e9ec4: it used to pass all descriptors and the whole grid).
+  effdim (skmatter/utils/_sparsekde.py): rejects a matrix with an eigenvalue at or below -d*eps (LinAlgError); otherwise exp(-sum p log p) over exactly the POSITIVE eigenvalues
+      normalised to total one (np.linalg.eigvals: the eigenvalues as uninterpreted real functions of the entries); the caller's matrix is not written.
   SparseKDE._bandwidth_inv / _normkernels (cached properties): entry j is inv(bandwidth_[j]) / d*log(2 pi) + log|det bandwidth_[j]|, computed once after a fit and
       served from the cache afterwards; not available before fit.
 
@@ -71,7 +73,22 @@ def extend_ext(ext):
     ext['sum_hook'] = sum_hook
     np_ = ext['modules']['np']
     np_.exp = np_exp; np_.log = np_log
-    np_.linalg.inv = np_inv; np_.linalg.slogdet = np_slogdet
+    np_.linalg.inv = np_inv; np_.linalg.slogdet = np_slogdet; np_.linalg.eigvals = np_eigvals
+    EPSC = z3.Real('float_eps')
+    def finfo(I, dt):
+        I.assume(EPSC > 0); I.cur['eps'] = EPSC
+        return skstubs.StubObj(kind='finfo', eps=EPSC)
+    np_.finfo = finfo
+    pmax_ = np_.max
+    np_.max = lambda I, a, **kw: (zmax(a[0], a[1]) if isinstance(a, tuple) and len(a) == 2 else pmax_(I, a, **kw))
+    lae = ExtClass('LinAlgError'); np_.linalg.LinAlgError = lae
+    if not getattr(npstubs.where_true, '_c17b', False):
+        _orig_wt = npstubs.where_true
+        def wt(I, mask):
+            r = _orig_wt(I, mask)
+            if isinstance(getattr(I, 'cur', None), dict): I.cur['where_pos'] = I.A(r)
+            return r
+        wt._c17b = True; npstubs.where_true = wt
     np_.array = np_array_of_stack(np_.array)
     ext['comp_sym'] = comp_sym
     ext['c17b'] = True
@@ -648,7 +665,36 @@ def u_tune_points():
     return Unit('SparseKDE._tune_localization_factor_based_on_fraction_of_points', body, funcs={SK + '._local_population': lp_fn_contract()},
                 loops={(q, 0): LoopContract(inv), (q, 1): LoopContract(inv)}, functions=[q])
 
-UNITS = [lambda: u_mixture(False), lambda: u_mixture(True), lambda: u_tune_points(), lambda: u_tune_spread(False), lambda: u_tune_spread(True), lambda: u_localized_bandwidth('fpoints'), lambda: u_localized_bandwidth('fspread'), lambda: u_local_population(False), lambda: u_local_population(True), lambda: u_oas(), lambda: u_covariance(), lambda: u_bandwidth()] + [(lambda w, s_: (lambda: u_cached(w, s_)))(w, s_) for w in ('_bandwidth_inv', '_normkernels') for s_ in ('unfitted', 'first', 'cached')]
+EIG = z3.Function('EIG', A2, IntS, IntS, RealS)          # k-th eigenvalue of a d x d matrix (as a function of its entries)
+def np_eigvals(I, a):
+    npstubs.used('np.linalg.eigvals (uninterpreted: the eigenvalues as functions of the entries, taken as real)')
+    A = I.A(a); M = z3.Lambda([a_, b_], to_real(A.elem(a_, b_))); d = tz(A.shape[0])
+    return I.new_arr(ArrVal((A.shape[0],), lambda k: EIG(M, d, tz(k)), RealS))
+
+def u_effdim():
+    q = UT + '.effdim'
+    def body(I):
+        d = I.fresh('d', IntS); I.assume(d >= 1)
+        C = I.fresh_arr('cov', (d, d)); C0 = I.A(C)
+        I.cur = {}
+        r = I.call_func(I.repo.get(q), [C], {})
+        M = z3.Lambda([a_, b_], C0.elem(a_, b_)); ev = lambda k: EIG(M, d, k)
+        kk = I.fresh('kk', IntS); I.assume(And(0 <= kk, kk < d))
+        I.ob('post[C17]:accepted-matrices-have-no-eigenvalue-below-minus-the-rounding-threshold', ev(kk) > -(z3.ToReal(d) * I.cur['eps']) if 'eps' in I.cur else BoolVal(False), kind='post')
+        I.ob('post[C09]:the-covariance-of-the-caller-is-not-written', BoolVal(I.A(C) is C0), kind='post')
+        # the value: exp(-sum p log p) over the POSITIVE eigenvalues normalised to total one
+        wt = I.cur.get('where_pos')
+        I.ob('post[C17]:only-the-positive-eigenvalues-enter', BoolVal(wt is not None), kind='post')
+        if wt is None: return
+        J = wt; m = tz(J.shape[0]); lam = lambda t: ev(J.elem(t)); tot = SUMARR(z3.Lambda([t_], lam(t_)), m)
+        t0 = I.fresh('t0', IntS); I.assume(And(0 <= t0, t0 < m)); k0 = I.fresh('k0', IntS); I.assume(And(0 <= k0, k0 < d, ev(k0) > 0))
+        wit = J.tag[2] if J.tag and J.tag[0] == 'where' else None
+        I.ob('post[C17]:the-eigenvalues-that-enter-are-exactly-the-positive-ones', And(0 <= J.elem(t0), J.elem(t0) < d, ev(J.elem(t0)) > 0, BoolVal(wit is not None) if wit is None else And(0 <= wit(k0), wit(k0) < m, J.elem(wit(k0)) == k0)), kind='post')
+        p = lambda t: lam(t) / tot
+        I.ob('post[C17]:effective-dimension-is-the-exponential-of-the-entropy-of-the-normalised-positive-spectrum', to_real(tz(r)) == EXP(-SUMARR(z3.Lambda([t_], p(t_) * LOG(p(t_))), m)), kind='post')
+    return Unit('effdim', body, functions=[q], on_raise=lambda I, st, r: r.kind == 'LinAlgError')
+
+UNITS = [lambda: u_mixture(False), lambda: u_mixture(True), lambda: u_effdim(), lambda: u_tune_points(), lambda: u_tune_spread(False), lambda: u_tune_spread(True), lambda: u_localized_bandwidth('fpoints'), lambda: u_localized_bandwidth('fspread'), lambda: u_local_population(False), lambda: u_local_population(True), lambda: u_oas(), lambda: u_covariance(), lambda: u_bandwidth()] + [(lambda w, s_: (lambda: u_cached(w, s_)))(w, s_) for w in ('_bandwidth_inv', '_normkernels') for s_ in ('unfitted', 'first', 'cached')]
 RT = False
 TRUSTED = ["finite-sum functionals SUMD / SUMARR, exp, log, matrix inverse and log|det| uninterpreted functions of their arguments: equal arguments give equal values (congruence on identical lambda terms)",
            "mixture loop: scipy.special.logsumexp as 'expn(result) = sum of expn(entries)' with expn(-inf) = 0; law of boolean-mask selection and finite sums (summing h over the members selected by a mask, in order, = summing over all members h where the mask holds and 0 elsewhere; assumed as an instance, conditional on the proved fact that the code's mask is the documented one); "
